@@ -372,6 +372,26 @@ def stream_call(rng, tbits, cls, oid='a'):
     elif r < 0.48:
         c.update(op=rng.choice(['readbits', 'readbits', 'peekbits']),
                  ia=[rng.choice([0, 1, 2, 3, 7, 8, 9, 16, n, n + 1, -1, rng.randint(0, max(n, 1))])])
+    elif r < 0.53:
+        name = rng.choice(['uint', 'int', 'hex', 'bin', 'oct', 'bool', 'bits', 'bytes', 'ue', 'se', 'uie', 'sie', 'ue', 'se',
+                           'uintbe', 'intle', 'float', 'pad'])
+        if name in ('ue', 'se', 'uie', 'sie'):
+            ln = NONE_I
+        elif name == 'float':
+            ln = rng.choice([16, 32, 64])
+        elif name in ('uintbe', 'intle'):
+            ln = rng.choice([8, 16, 24])
+        elif name == 'bytes':
+            ln = rng.choice([0, 1, 2, NONE_I])
+        elif name == 'hex':
+            ln = rng.choice([0, 4, 8, 12, NONE_I])
+        elif name == 'oct':
+            ln = rng.choice([0, 3, 6, NONE_I])
+        elif name == 'bool':
+            ln = rng.choice([NONE_I, 1])
+        else:
+            ln = rng.choice([1, 2, 3, 7, 8, 9, 16, n, n + 1, NONE_I, 0])
+        c.update(op=rng.choice(['readtok', 'readtok', 'peektok']), sa=[name, str(rng.randint(0, 2))], ia=[ln])
     elif r < 0.58:
         c.update(op=rng.choice(['readlistbits', 'peeklistbits']),
                  ia=[rng.choice([0, 1, 2, 3, 8]) for _ in range(rng.randint(0, 4))])
